@@ -37,6 +37,8 @@ pub struct Info {
     pub macros: usize,
     pub local_clashes: usize,
     pub injected_error: Option<&'static str>,
+    /// payload types dispatched by the task entry of a task + mesh workload (0: compute workload)
+    pub mesh_payload_types: usize,
 }
 
 #[derive(Clone, Debug)]
@@ -646,9 +648,40 @@ pub fn generate(rng: &mut Rng) -> Workload {
     if two_pipelines {
         main_text.push_str(&format!("void Second(uint3 dtid : SV_DispatchThreadID, uint gi : SV_GroupIndex) {{\n    uint r = gi;\n    r += {}(r);\n    {}\n}}\n\n", fn_ref(0, depth / 2), statics[1].write.clone().unwrap_or_default()));
     }
-    main_text.push_str("Pipeline P0\n{\n    ComputeShader = Main;\n}\n");
-    if two_pipelines {
-        main_text.push_str("\nPipeline P1\n{\n    ComputeShader = Second;\n}\n");
+    // one workload in eight is a task + mesh pipeline instead (the Metal exporter refuses mesh intrinsics next to other pipelines):
+    // the task entry reaches DispatchMesh with one to three payload types, directly and through a helper, so that the implicit
+    // payload parameters are collected from a set with several members
+    let mesh_variant = rng.chance(1, 8);
+    if mesh_variant {
+        let payloads = 1 + rng.below(3);
+        for k in 0..payloads {
+            let extra: String = (0..k).map(|j| format!("    uint extra{};\n", j)).collect();
+            main_text.push_str(&format!("struct Payload{}\n{{\n    uint start_location;\n{}}};\ngroupshared Payload{} lds_payload{};\n\n", k, extra, k, k));
+        }
+        main_text.push_str("struct MeshVertex\n{\n    float4 position : SV_Position;\n};\n\n");
+        if payloads > 1 {
+            main_text.push_str(&format!("void dispatch_last(uint n)\n{{\n    lds_payload{}.start_location = n;\n    DispatchMesh(2u, 1u, 1u, lds_payload{});\n}}\n\n", payloads - 1, payloads - 1));
+        }
+        main_text.push_str("[numthreads(64, 1, 1)]\nvoid TaskMain(uint3 dtid : SV_DispatchThreadID)\n{\n");
+        for k in 0..payloads {
+            main_text.push_str(&format!("    lds_payload{}.start_location = dtid.x + {}u;\n", k, k));
+        }
+        for k in 0..payloads {
+            let call = if payloads > 1 && k + 1 == payloads { "dispatch_last(dtid.x);".to_string() } else { format!("DispatchMesh({}u, 1u, 1u, lds_payload{});", 1 + k, k) };
+            if k + 1 < payloads {
+                main_text.push_str(&format!("    if (dtid.x == {}u)\n    {{\n        {}\n        return;\n    }}\n", k, call));
+            } else {
+                main_text.push_str(&format!("    {}\n", call));
+            }
+        }
+        main_text.push_str("}\n\n[numthreads(64, 1, 1)]\n[outputtopology(\"triangle\")]\nvoid MeshMain(uint3 dtid : SV_DispatchThreadID, in payload Payload0 data, out vertices MeshVertex o_vertices[64], out indices uint3 o_triangles[64])\n{\n    SetMeshOutputCounts(64, 64);\n    MeshVertex vertex;\n    vertex.position = float4(data.start_location, 0, 0, 1);\n    o_vertices[dtid.x] = vertex;\n    o_triangles[dtid.x] = uint3(0, 1, 2);\n}\n\n");
+        main_text.push_str("Pipeline PT\n{\n    TaskShader = TaskMain;\n    MeshShader = MeshMain;\n}\n");
+        info.mesh_payload_types = payloads;
+    } else {
+        main_text.push_str("Pipeline P0\n{\n    ComputeShader = Main;\n}\n");
+        if two_pipelines {
+            main_text.push_str("\nPipeline P1\n{\n    ComputeShader = Second;\n}\n");
+        }
     }
 
     // ---- error injection ------------------------------------------------------------------------
@@ -661,6 +694,9 @@ pub fn generate(rng: &mut Rng) -> Workload {
         2 if two_pipelines => "named:P1".to_string(),
         _ => "all".to_string(),
     };
+    if mesh_variant {
+        mode = "all".to_string();
+    }
     if rng.chance(1, 6) {
         let kind: &'static str = *rng.pick(&["undefined-identifier", "wrong-arity", "missing-include", "error-directive", "redefinition", "type-error", "unknown-pipeline", "unterminated-conditional", "layout-mismatch", "layout-mismatch", "duplicate-pipeline-properties", "duplicate-sampler-properties", "duplicate-pipeline-properties", "duplicate-sampler-properties"]);
         info.injected_error = Some(kind);
